@@ -43,6 +43,18 @@ CLAIMED = {
         "Trusts spec/pdf_operators.json. Known findings C16-R6 (current colour spaces not part of the q/Q snapshot) are recorded.",
         "DESIGN.md §5 C16",
     ),
+    "C06": (
+        "ordering/precedence extraction, table folding of the Latin encoding table through the glyph list against Python's cp1252/mac_roman codecs (independent oracle), overlay-algorithm and copy-before-store checks, anchored-regex guard check, dispatch table of font subtypes, binding checks of width lookups",
+        "Decides structural necessary conditions for simple fonts: ToUnicode precedes the encoding and a missing mapping becomes (cid:N); WinAnsi/MacRoman columns equal the platform codecs except the documented deviations and every glyph name resolves; Differences overlay semantics on a copy; glyph-name hex parts validated over their whole length; subtype dispatch; Widths/FirstChar/MissingWidth/FontMatrix bindings. The AGL algorithm as a string function, the standard-14 metric tables (no oracle on this machine) and Type 1 header parsing are not decided.",
+        "Trusts Python's cp1252 and mac_roman codecs and the documented deviations of ISO 32000-1 Annex D.",
+        "DESIGN.md §5 C06",
+    ),
+    "C07": (
+        "dispatch/format extraction for the identity CMaps, size-agreement check of struct.unpack, begin/end pairing and chunk-size extraction in the CMap parser, dependence/inclusive-bound checks on every range expansion, binding checks of DW2/W2",
+        "Decides only the structural part, which is a minority of this property: identity CMap segmentation (width, byte order, writing mode, whole codes only), begin/end handling of the ToUnicode parser, index dependence and inclusive bounds of bfrange/cidrange/W/W2 expansions, DW2/W2 bindings. CJK code segmentation and Unicode values come from pickled data files, and agreement with platform codecs is value level: not decided.",
+        "Thin by design (DESIGN §6): most of the behaviour is data, not code.",
+        "DESIGN.md §5 C07",
+    ),
     "C08": (
         "def-use flow of the partitions in LTLayoutContainer.analyze, typestate abstract interpretation of group_objects over all feasible paths of its loop body (three-valued branch evaluation), min/max normal form of the expanding add with a who-may-bypass inventory, must-pass-through of the line break, sort-key normal forms, ordering of numbering",
         "Decides structural necessary conditions of content conservation: every partition reaches the final child list, every glyph is added to exactly one line exactly once and every line is yielded exactly once on all paths of the grouping loop, bounding boxes grow by min/max and only LTAnno bypasses that, every line gets its break and every line/box is analysed, lines are sorted top-to-bottom (right-to-left), boxes are numbered on both ordering paths, container text is the in-order concatenation. Termination of the heap loop of group_textboxes and that group_textlines never drops a non-empty line are arithmetic/history-level and not decided.",
@@ -90,6 +102,24 @@ CLAIMED = {
         "The tokenizer's twelve scanner methods are abstracted to a finite automaton whose every transition is classified by the advance of the returned index; acyclicity of the zero-advance subgraph plus the driver-loop obligations give termination and non-decreasing positions for every byte string; the exception-flow analysis shows only PSEOF escapes; read classification shows tokens cannot depend on the buffer size. This is a complete analysis of the abstraction, not a sample of inputs.",
         "Assumes re.search/match terminate and agree with re._parser's width computation, the file object is finite, and the abstraction's reading of Python semantics (ast) is right. Scope is psparser.PSBaseParser (subclass overrides of fillbuf are outside C14).",
         "DESIGN.md §5 C14",
+    ),
+    "C17": (
+        "table comparison of PDFDocEncoding against ISO 32000-1 Annex D.2 (256 entries), dispatch extraction of label styles with folded interned names, yield-order extraction of the outline traversal, order checks of number-tree flattening and name-tree lookup",
+        "Decides structural necessary conditions: the PDFDocEncoding table is Annex D.2 entry by entry with the BOM test first; label styles and defaults; outline order (entry, children one level deeper, then siblings); number-tree pairing/Kids order/sort; name-tree Limits guard before Names and Kids; destination fallbacks. The roman/alpha numeral functions, label range arithmetic and behaviour on arbitrary tree shapes are value level and not decided.",
+        "Trusts the rule-coded transcription of Annex D.2 in rules/c17.py.",
+        "DESIGN.md §5 C17",
+    ),
+    "C18": (
+        "dispatch extraction of the export chain with emptiness-guard check, unit checks of BMP row sizes and header layout, order/strip-length extraction of the inline-image scanner",
+        "Decides structural necessary conditions: export format dispatch never indexes an empty filter list; row byte counts for 1-bit/gray/RGB, 4-byte aligned line size, header fields, bottom-up rows; unique export names (shared with C15-R3); inline images: BI/ID context, data start one byte after ID, terminator + white space, exactly len(terminator)+1 bytes stripped, EI re-pushed. Pixel equality of the exported files is value level and not decided.",
+        "Trusts the reading of the BMP format encoded in the rule.",
+        "DESIGN.md §5 C18",
+    ),
+    "C19": (
+        "reconstruction of the MODE/WHITE/BLACK code sets from the BitParser.add calls and entry-by-entry comparison with ITU-T T.4/T.6, plus transcription-independent identities (prefix-freeness, Kraft sums exactly 255/256, shared extended make-up codes); mode-dispatch, parameter-binding and bit-order sibling checks",
+        "Decides that the code tables are the standard's (any changed, dropped, duplicated or permuted code word is detected), that every mode class is dispatched, that Columns/EncodedByteAlign/BlackIs1 reach the decoder and only K=-1 is decoded, and that reader and writer share the MSB-first bit order. The reference-line arithmetic of the vertical/pass/horizontal modes is value level and not decided.",
+        "spec/ccitt_codes.json was generated from the repository at the pinned commit and validated by the Kraft/prefix identities and spot checks against T.4; the identities are an oracle independent of that file.",
+        "DESIGN.md §5 C19",
     ),
     "C20": (
         "polynomial normal forms (term rewriting) + CFG must-pass / write-set checks on utils.Plane",
